@@ -74,9 +74,9 @@ void transform_stub (uint32_t state[5], const uint8_t block[64])
 {
   XV_STUBPRE ("C16", 64 * G_NBLK + 64 <= G_PADLEN, "no more blocks than the padded message has");
   if (XV_SAME_OBJ (block, G_MSG))
-    XV_STUBPRE ("C16", block == G_MSG + 64 * G_NBLK, "blocks taken from the message are the next ones, in order");
+    XV_STUBPRE ("C16,C03", block == G_MSG + 64 * G_NBLK, "blocks taken from the message are the next ones, in order");
   else if (g_j >= 64 * G_NBLK && g_j < 64 * G_NBLK + 64)
-    XV_STUBPRE ("C16", block[g_j - 64 * G_NBLK] == G_MSG[g_j],
+    XV_STUBPRE ("C16,C03", block[g_j - 64 * G_NBLK] == G_MSG[g_j],
                 "the buffered block equals the corresponding block of the padded message (arbitrary byte)");
   XV_STUBPRE ("C16", state[0] == G_STATE[G_NBLK][0] && state[1] == G_STATE[G_NBLK][1] && state[2] == G_STATE[G_NBLK][2]
               && state[3] == G_STATE[G_NBLK][3] && state[4] == G_STATE[G_NBLK][4], "chaining value carried from the previous block");
@@ -110,7 +110,7 @@ void harness (void)
   g_off0 = off;
   XV_ASSUME (R (ctx, off));
   sha1_process_bytes (G_MSG + off, ctx, n);
-  XV_ASSERT ("C16", R (ctx, off + n),
+  XV_ASSERT ("C16,C03", R (ctx, off + n),
              "process_bytes (msg + off, n) takes the representation of the first off bytes to that of the first off + n bytes, for any off and n: chunking-independent");
   XV_CANARY ("update");
   if ((off & 63) && n >= 64 - (off & 63)) XV_CANARY ("update completes a buffered block");
